@@ -540,6 +540,17 @@ func c19Gen(r *rand.Rand, tier string) []Case {
 		}
 	}
 	rec(nil)
+	// twins: subscribers made from ONE parsed request (same text, same *Field) that differ only in the
+	// values of their variables - the extra field k is included for some and not for the others - all
+	// matching the same events, in every order
+	for t, uids := range [][]int{{3, 9}, {9, 3}, {6, 12}, {12, 6, 18}, {3, 9, 15, 21}, {21, 15, 9, 3}} {
+		ops := []sx.S{"hist", sx.L("reuse")}
+		for _, uid := range uids {
+			ops = append(ops, sx.L("sub", sx.L("s", sx.A(uid), sx.A(0), sx.Ints([]int{1}), sx.Ints([]int{}))))
+		}
+		ops = append(ops, sx.L("pub", sx.A(0), sx.Ints([]int{11, 20, 30, 40})), sx.L("pub", sx.A(0), sx.Ints([]int{12, 21, 31, 41})), sx.L("unsub", sx.A(0)))
+		cases = append(cases, Case{ID: fmt.Sprintf("t%d", t), Input: ops, Tags: c19Tags(ops, "twins")})
+	}
 	for i := 0; i < nrand; i++ {
 		ln := 1 + r.Intn(maxlen)
 		ops := []sx.S{"hist"}
